@@ -137,6 +137,54 @@ pub fn run(ctx: &Ctx) -> i32 {
         rep
     });
     let mut rep = rep;
+    // the repository's own rule files, read by the harness's own YAML-to-AST reader: their examples
+    // and generated documents against the reference
+    {
+        let mut rng = Rng::new(ctx.seed, "C02-corpus", 0);
+        for cr in crate::corpus::load() {
+            let Some(ast) = &cr.ast else {
+                rep.count("corpus.not_covered_by_harness_reader");
+                continue;
+            };
+            let Some(rule) = eng::load_ok(&cr.text) else {
+                rep.count("corpus.rejected_by_engine");
+                continue;
+            };
+            rep.count("corpus.rules");
+            let tagk = format!("corpus:{}", cr.name);
+            let leaves = gen::collect_leaves(ast);
+            let mut docs: Vec<DVal> = ast.tp.iter().chain(ast.tn.iter()).cloned().collect();
+            for _ in 0..ctx.size(200, 5000) {
+                docs.push(gen::gen_doc(&mut rng, &leaves));
+            }
+            // mutated examples: drop / alter one field
+            for ex in ast.tp.iter().chain(ast.tn.iter()) {
+                if let DVal::Obj(es) = ex {
+                    for i in 0..es.len() {
+                        let mut d = es.clone();
+                        d.remove(i);
+                        docs.push(DVal::Obj(d));
+                        let mut d = es.clone();
+                        d[i].1 = gen::junk_scalar(&mut rng);
+                        docs.push(DVal::Obj(d));
+                    }
+                }
+            }
+            for d in &docs {
+                check_case(&mut rep, &rf, ast, &cr.text, &rule, d, &tagk);
+            }
+            // the rule's own examples are an oracle of their own
+            for (want, list) in [(true, &ast.tp), (false, &ast.tn)] {
+                for ex in list {
+                    if let Some(w) = refi::verdict(rf.eval_rule(ast, ex)) {
+                        if w != want {
+                            rep.notes.push(format!("reference disagrees with the corpus example of {} (reference {}, file says {})", cr.name, w, want));
+                        }
+                    }
+                }
+            }
+        }
+    }
     crate::regress::replay_witnesses(ctx, &mut rep);
     let loaded = rep.get("rules_loaded");
     let rejected = rep.get("load_rejected");
